@@ -154,11 +154,12 @@ def bodyStr (esc : Bool) : List Nat → Bool
 /-- Printable ASCII, no space. -/
 def printableC (c : Nat) : Bool := c < 127 && !(c == 32 || (9 ≤ c && c ≤ 13))
 
-/-- The value strings `validate` accepts (theorem `validate_iff_grammar`).
-    Compared with the naming specification this is lenient in three ways, each
-    a recorded finding: the body may be empty (`??`, `**`), any character may be
-    quoted (also a letter or a control character), and `?`-runs/`*` may be
-    combined freely at the two ends. -/
+/-- The value strings `validate` accepts (theorem `validate_accepts_iff`).
+    Compared with the text of the naming specification this is lenient: any
+    character may be quoted (also a letter or a control character) and `**` is
+    accepted — both recorded findings; the body may be empty and a `?`-run and
+    an asterisk may be combined at the two ends (`??`, `?*`), which the grammars
+    of the specification leave open. -/
 def ValueGrammar (s : List Nat) : Prop :=
   s.all printableC = true ∧ s ≠ [42] ∧ s ≠ [92, 45] ∧
     ∃ l body r, s = leadStr l ++ body ++ leadStr r ∧ bodyStr false body = true
@@ -188,6 +189,12 @@ def fsBodyStr (esc : Bool) : List Nat → Bool
     else if c = 92 then fsBodyStr true rest
     else fsUnreservedC c && fsBodyStr false rest
 
+/-- An avstring.  The body is required to be non-empty, as in the XSD pattern;
+    the ABNF of the report (`spec_chrs *body2`) can be read as admitting values
+    of special characters only (`??`, `?*`).  The theorems use this smaller
+    grammar where they say "is accepted"; where they say "is accepted although
+    not in the grammar" they avoid the open shapes (only `**`, which the
+    report's text rules out in words, is claimed). -/
 def AvString (c : List Nat) : Prop :=
   c = [42] ∨ c = [45] ∨
     ∃ l body r, c = leadStr l ++ body ++ leadStr r ∧ body ≠ [] ∧ fsBodyStr false body = true
